@@ -377,6 +377,31 @@ class RegexCompiler:
             raise AnalysisError('bytes patterns unsupported')
         parsed = sre_parse.parse(pattern, self.flags)
         items = list(parsed)
+        # a leading `(?:^|A)`: "at the start, or after A" - the union of the
+        # pattern anchored at the start and the pattern with A in front
+        if items:
+            op0, av0 = items[0]
+            br = None
+            if op0 is sre_c.BRANCH:
+                br = av0[1]
+            elif op0 is sre_c.SUBPATTERN and av0[0] is None and \
+                    len(av0[3]) == 1 and av0[3][0][0] is sre_c.BRANCH:
+                br = av0[3][0][1][1]
+            begs = (sre_c.AT_BEGINNING, sre_c.AT_BEGINNING_STRING)
+            if br is not None and any(
+                    len(alt) == 1 and alt[0][0] is sre_c.AT and
+                    alt[0][1] in begs for alt in br):
+                rest = items[1:]
+                out = None
+                for alt in br:
+                    alt = list(alt)
+                    d = self._language_items(alt + rest, mode)
+                    out = d if out is None else out.product(
+                        d, lambda x, y: x or y)
+                return out.minimize()
+        return self._language_items(items, mode)
+
+    def _language_items(self, items, mode):
         anch_l = anch_r = None
         if items and items[0][0] is sre_c.AT and items[0][1] in (
                 sre_c.AT_BEGINNING, sre_c.AT_BEGINNING_STRING):
